@@ -8,6 +8,7 @@ mod ast;
 mod builder;
 mod checks;
 mod classes;
+mod consumer;
 mod gen_fd;
 mod driver;
 mod engine;
